@@ -22,7 +22,7 @@ class Prop(BaseProp):
                 "C10_bad_char", "C10_checksum_sound", "C10_too_short", "C10_wrong_checksum",
                 "C10_checksum_roundtrip"]
     exec_modules = ["Exec.C10"]
-    extra_modules = {"C10Src": ["C10_source_encode_is_model", "C10_source_encode_decodes_back", "C10_source_leading_zeros", "C10_source_checksum_encode_is_model", "C10_source_translated"]}
+    extra_modules = {"C10Src": ["C10_source_encode_is_model", "C10_source_encode_decodes_back", "C10_source_leading_zeros", "C10_source_checksum_encode_is_model", "C10_source_decode_is_model", "C10_source_roundtrip", "C10_source_bad_char", "C10_source_checksum_sound", "C10_source_b58decode_addr_is_model", "C10_source_translated"]}
     pysem_funcs = ['helper.encode_base58', 'helper.encode_base58_checksum', 'helper.decode_base58', 'helper.decode_base58_checksum', 'helper.b58decode_addr']
     shard = 32
     exec_import = "From BHW Require Import Lib.Base Exec.Common Exec.C10.\nFrom Coq Require Import String.\nOpen Scope string_scope."
@@ -41,6 +41,8 @@ class Prop(BaseProp):
                 cases.append({"kind": "RT", "bs": (b"\x00" * z + body).hex()})
         for b in (0, 1, 57, 58, 255):
             cases.append({"kind": "RT", "bs": bytes([b]).hex()})
+        for n in (1, 21, 33):
+            cases.append({"kind": "RT", "bs": bytes(rng.randrange(256) for _ in range(n)).hex(), "as": "bytearray"})
         nrand = 600 if tier == "thorough" else 120
         for _ in range(nrand):
             n = rng.randrange(1, 129)
@@ -99,9 +101,20 @@ class Prop(BaseProp):
         with rec.installed():
             if case["kind"] == "RT":
                 bs = bytes.fromhex(case["bs"])
-                e = guard(h.encode_base58, bs)
+                if case.get("as") == "bytearray":
+                    # the payload comes as a mutable byte string that the caller keeps using: every call must encode the payload,
+                    # and the encoders must leave the caller's buffer alone (observed: the answers of the SECOND calls)
+                    arg = bytearray(bs)
+                    guard(h.encode_base58, arg)
+                    guard(h.encode_base58_checksum, arg)
+                    bs_now = arg
+                else:
+                    bs_now = bs
+                e = guard(h.encode_base58, bs_now)
                 d = guard(h.decode_base58, e) if e is not None else None
-                ec = guard(h.encode_base58_checksum, bs)
+                ec = guard(h.encode_base58_checksum, bs_now)
+                if bytes(bs_now) != bs:
+                    ec = "ARGUMENT-MUTATED:" + bytes(bs_now).hex()
                 dc = guard(h.decode_base58_checksum, ec) if ec is not None else None
                 obs = {"e": e, "d": None if d is None else d.hex(), "ec": ec, "dc": None if dc is None else dc.hex()}
                 extra = []
